@@ -41,8 +41,8 @@ def expireL (e? : Option (CEntry sem)) (released : Bool) (now : Int) : Option (C
   match e? with
   | none => (none, none)
   | some e =>
-    let e : CEntry sem := { e with pending := !released }
-    if e.pending || decide (now < e.expires) then (some e, e.loc) else (none, none)
+    let e : CEntry sem := { e with pending := if released then e.pending - 1 else e.pending + 1 }
+    if decide (0 < e.pending) || (e.loc.isSome && decide (now < e.expires)) then (some e, e.loc) else (none, none)
 
 theorem expire_local (st : SysSt sem) (n : String) (rel : Bool) (now : Int) :
     kget (expire st n rel now).1.table n = (expireL (kget st.table n) rel now).1 ∧
@@ -52,15 +52,16 @@ theorem expire_local (st : SysSt sem) (n : String) (rel : Bool) (now : Int) :
   | none => simp [hk]
   | some e0 =>
     simp only
+    generalize (if rel = true then e0.pending - 1 else e0.pending + 1) = p
     split
     · exact ⟨kget_kset_same _ _ _, rfl⟩
     · exact ⟨kget_kdel_same _ _, rfl⟩
 
-/-- `Get` on the component -/
+/-- `get` on the component -/
 def getL (cfg : Cfg) (slot : Option (CEntry sem)) (s : sem.S) (e : CEntry sem) (installed chk : Bool) (now : Int) :
     Option (CEntry sem) × Option sem.L :=
   let l := sem.load now s
-  if chk && cfg.checkExistence && !sem.created l then (none, none)
+  if chk && cfg.checkExistence && !sem.created l then (slot, none)
   else
     let e : CEntry sem := { e with loc := some l, expires := (match sem.cacheTTL l with | some d => now + d | none => e.expires) }
     ((if installed then some e else slot), some l)
@@ -71,17 +72,20 @@ theorem getE_local (cfg : Cfg) (st : SysSt sem) (n : String) (e : CEntry sem) (i
   unfold getE getL
   simp only
   split
-  · exact ⟨kget_kdel_same _ _, rfl⟩
+  · exact ⟨rfl, rfl⟩
   · cases inst with
     | false => exact ⟨rfl, rfl⟩
     | true => exact ⟨kget_kset_same _ _ _, rfl⟩
 
 def openL (cfg : Cfg) (slot : Option (CEntry sem)) (s : sem.S) (chk : Bool) (now : Int) : Option (CEntry sem) × Option sem.L :=
   match expireL slot false now with
-  | (slot', some l) => (slot', some l)
+  | (slot', some l) => if chk && cfg.checkExistence && !sem.created l then (slot', none) else (slot', some l)
   | (slot', none) =>
-    let e : CEntry sem := { expires := newExpires cfg now, pending := false, loc := none }
-    getL cfg (if installs cfg then some e else slot') s e (installs cfg) chk now
+    match slot' with
+    | some e => getL cfg slot' s e true chk now
+    | none =>
+      let e : CEntry sem := { expires := newExpires cfg now, pending := 1, loc := none }
+      getL cfg (if installs cfg then some e else none) s e (installs cfg) chk now
 
 theorem openE_local (cfg : Cfg) (st : SysSt sem) (n : String) (chk : Bool) (now : Int) :
     kget (openE cfg st n chk now).1.table n = (openL cfg (kget st.table n) (storeOf st.store n) chk now).1 ∧
@@ -100,20 +104,34 @@ theorem openE_local (cfg : Cfg) (st : SysSt sem) (n : String) (chk : Bool) (now 
       obtain ⟨hx1, hx2⟩ := hx
       subst hx2
       cases r1 with
-      | some l => exact ⟨hx1, rfl⟩
+      | some l =>
+        simp only
+        split
+        · exact ⟨hx1, rfl⟩
+        · exact ⟨hx1, rfl⟩
       | none =>
         simp only
         rw [← hs]
-        cases hi : installs cfg with
-        | true =>
-          have := getE_local cfg ({ st1 with table := kset st1.table n ({ expires := newExpires cfg now, pending := false, loc := none } : CEntry sem) } : SysSt sem) n
-            { expires := newExpires cfg now, pending := false, loc := none } true chk now
-          rw [kget_kset_same] at this
-          simpa using this
-        | false =>
-          have := getE_local cfg st1 n { expires := newExpires cfg now, pending := false, loc := none } false chk now
-          rw [hx1] at this
-          simpa using this
+        cases hk1 : kget st1.table n with
+        | some e1 =>
+          rw [hk1] at hx1; subst hx1
+          simp only
+          have := getE_local cfg st1 n e1 true chk now
+          rw [hk1] at this
+          exact this
+        | none =>
+          rw [hk1] at hx1; subst hx1
+          simp only
+          cases hi : installs cfg with
+          | true =>
+            have := getE_local cfg ({ st1 with table := kset st1.table n ({ expires := newExpires cfg now, pending := 1, loc := none } : CEntry sem) } : SysSt sem) n
+              { expires := newExpires cfg now, pending := 1, loc := none } true chk now
+            rw [kget_kset_same] at this
+            simpa using this
+          | false =>
+            have := getE_local cfg st1 n { expires := newExpires cfg now, pending := 1, loc := none } false chk now
+            rw [hk1] at this
+            simpa using this
 
 theorem updLoc_local (table : List (String × CEntry sem)) (n : String) (l : sem.L) :
     kget (updLoc table n l) n = (kget table n).map (fun e => { e with loc := some l }) := by
@@ -134,13 +152,13 @@ def reqL (cfg : Cfg) (slot : Option (CEntry sem)) (s : sem.S) (r : ROp sem) (t1 
        (((expireL (slot1.map (fun e => { e with loc := some x.1 })) true t2).1, x.2.1), .ok x.2.2))
   | .create =>
     (match openL cfg slot s false t1 with
-     | (slot1, none) => ((slot1, s), .notFound)
+     | (slot1, none) => (((expireL slot1 true t2).1, s), .notFound)
      | (slot1, some l) =>
-       if sem.created l then ((slot1, s), .created false)
+       if sem.created l then (((expireL slot1 true t2).1, s), .created false)
        else
          let x := sem.mark l s
-         ((slot1.map (fun e => { e with loc := some x.1 }), x.2), .created true))
-  | .peek => (((openL cfg slot s false t1).1, s), .peeked)
+         (((expireL (slot1.map (fun e => { e with loc := some x.1 })) true t2).1, x.2), .created true))
+  | .peek => (((expireL (openL cfg slot s false t1).1 true t2).1, s), .peeked)
 
 theorem release_local (st : SysSt sem) (n : String) (t2 : Int) :
     sysView (releaseE st n t2) n = ((expireL (kget st.table n) true t2).1, storeOf st.store n) := by
@@ -175,7 +193,7 @@ theorem reqE_local (cfg : Cfg) (st : SysSt sem) (n : String) (r : ROp sem) (t1 t
           rw [reqE_api_some cfg st st1 n op t1 t2 l hx]
           show sysView (releaseE _ n t2) n = _ ∧ _
           rw [release_local]
-          simp only [updLoc_local, ho1, storeOf_kset_same, hs] <;> (first | exact ⟨rfl, rfl⟩ | exact ⟨trivial, rfl⟩ | exact ⟨rfl, trivial⟩ | trivial | simp)
+          simp only [updSt, updLoc_local, ho1, storeOf_kset_same, hs] <;> (first | exact ⟨rfl, rfl⟩ | exact ⟨trivial, rfl⟩ | exact ⟨rfl, trivial⟩ | trivial | simp)
   | create =>
     have ho := openE_local cfg st n false t1
     have hs := (openE_spec cfg st n false t1).1
@@ -190,17 +208,31 @@ theorem reqE_local (cfg : Cfg) (st : SysSt sem) (n : String) (r : ROp sem) (t1 t
         obtain ⟨ho1, ho2⟩ := ho
         subst ho2
         cases r1 with
-        | none => simp only [ROp.toReq, reqE, reqL, hx, hl, sysView, ho1, hs] <;> (first | exact ⟨rfl, rfl⟩ | exact ⟨trivial, rfl⟩ | exact ⟨rfl, trivial⟩ | trivial | simp)
+        | none =>
+          simp only [ROp.toReq, reqE, reqL, hx, hl]
+          show sysView (releaseE st1 n t2) n = _ ∧ _
+          rw [release_local, ho1, hs]
+          first | exact ⟨rfl, rfl⟩ | exact ⟨trivial, rfl⟩ | exact ⟨rfl, trivial⟩ | exact ⟨trivial, trivial⟩
         | some l =>
           simp only [ROp.toReq, reqE, reqL, hx, hl]
           cases hc : sem.created l with
-          | true => simp only [if_true, sysView, ho1, hs] <;> (first | exact ⟨rfl, rfl⟩ | exact ⟨trivial, rfl⟩ | exact ⟨rfl, trivial⟩ | trivial | simp)
+          | true =>
+            simp only [if_true]
+            show sysView (releaseE st1 n t2) n = _ ∧ _
+            rw [release_local, ho1, hs]
+            first | exact ⟨rfl, rfl⟩ | exact ⟨trivial, rfl⟩ | exact ⟨rfl, trivial⟩ | exact ⟨trivial, trivial⟩
           | false =>
-            simp only [sysView, hs, Bool.false_eq_true, if_false, updLoc_local, ho1, storeOf_kset_same] <;> (first | exact ⟨rfl, rfl⟩ | exact ⟨trivial, rfl⟩ | exact ⟨rfl, trivial⟩ | trivial | simp)
+            simp only [Bool.false_eq_true, if_false]
+            show sysView (releaseE _ n t2) n = _ ∧ _
+            rw [release_local]
+            simp only [updLoc_local, ho1, storeOf_kset_same, hs] <;> (first | exact ⟨rfl, rfl⟩ | exact ⟨trivial, rfl⟩ | exact ⟨rfl, trivial⟩ | trivial | simp)
   | peek =>
     have ho := openE_local cfg st n false t1
     have hs := (openE_spec cfg st n false t1).1
-    simp only [ROp.toReq, reqE, reqL, sysView, ho.1, hs] <;> (first | exact ⟨rfl, rfl⟩ | exact ⟨trivial, rfl⟩ | exact ⟨rfl, trivial⟩ | trivial | simp)
+    simp only [ROp.toReq, reqE, reqL]
+    show sysView (releaseE _ n t2) n = _ ∧ _
+    rw [release_local, ho.1, hs]
+    first | exact ⟨rfl, rfl⟩ | exact ⟨trivial, rfl⟩ | exact ⟨rfl, trivial⟩ | exact ⟨trivial, trivial⟩
 
 /-- the frame structure of the System engine -/
 def sysFrame (sem : LocSem) (cfg : Cfg) : Frame (sysEngine sem cfg) where
